@@ -736,7 +736,7 @@ public:
 				bitNPlusOne = true;
 				exp = 0;
 			}
-			else {
+			else if (reglen < 14) {   // reglen == 14 leaves no room for the exponent bit: the shift count would be negative
 				exp <<= (13 - reglen);
 			}
 			bits = uint16_t(regime) + uint16_t(exp) + uint16_t(final_fbits);
@@ -776,7 +776,7 @@ public:
 				bitNPlusOne = true;
 				exp = 0;
 			}
-			else {
+			else if (reglen < 14) {   // reglen == 14 leaves no room for the exponent bit: the shift count would be negative
 				exp <<= (13 - reglen);
 			}
 			bits = uint16_t(regime) + uint16_t(exp) + uint16_t(final_fbits);
@@ -818,7 +818,7 @@ public:
 				bitNPlusOne = true;
 				exp = 0;
 			}
-			else {
+			else if (scale < 14) {   // scale == 14 leaves no room for the exponent bit: the shift count would be negative
 				exp <<= (13 - scale);
 			}
 
